@@ -275,16 +275,21 @@ impl Uplinks {
                             {
                                 *queued = false;
                                 let synced = std::mem::replace(send_synced, false);
+                                let had_data = backpressure.has_data();
                                 backpressure.prepare_write(&mut buffer);
-                                let action = if synced {
-                                    WriteAction::ValueSynced(true)
+                                let maybe_action = if synced {
+                                    Some(WriteAction::ValueSynced(had_data))
+                                } else if had_data {
+                                    Some(WriteAction::Event)
                                 } else {
-                                    WriteAction::Event
+                                    None
                                 };
-                                let lane_name =
-                                    registry.name_for(lane_id).expect(UNREGISTERED_LANE);
-                                sender.update_lane(lane_name);
-                                break Some(WriteTask::new(sender, buffer, action));
+                                if let Some(action) = maybe_action {
+                                    let lane_name =
+                                        registry.name_for(lane_id).expect(UNREGISTERED_LANE);
+                                    sender.update_lane(lane_name);
+                                    break Some(WriteTask::new(sender, buffer, action));
+                                }
                             }
                         }
                         UplinkKind::Supply => {
